@@ -85,6 +85,9 @@ theorem C18_saturates (vals : List (List Nat)) (d : Nat) (h : parse vals = some 
     · injection h with h; subst h; unfold specValue; split <;> omega
     · simp at h
 
+/-- no `grpc-timeout` header at all ⇒ no deadline is set -/
+theorem C18_no_header : parse [] = none := rfl
+
 /-- only the last `grpc-timeout` value counts: earlier values neither add nor
     remove a deadline (the code reads `vals[len(vals)-1]`) -/
 theorem C18_last_wins (hs : List (List Nat)) (v : List Nat) :
